@@ -33,7 +33,7 @@ Fixpoint lk_fmt (t : list (string * string * json * bool)) (k f : string) (v : j
 
 Definition with_mode (m : N) (st : settings) : settings :=
   mkSt (st_failfast st) (st_multi st)
-       (N.eqb m 1 || N.eqb m 2) (N.eqb m 3 || N.eqb m 4) (N.eqb m 2) (N.eqb m 4).
+       (N.eqb m 1 || N.eqb m 2) (N.eqb m 3 || N.eqb m 4) (N.eqb m 2) (N.eqb m 4) false.
 
 Definition class_of (o : outcome) : N := match o with Ok => 0 | Err _ => 1 | Panic _ => 2 end.
 
